@@ -7,7 +7,9 @@ EXPLANATION = ("static analysis over the *parsed source of the installed network
                "writes to adjacency / node tables and a least fixpoint over the self-call graph (callees resolved in the "
                "subclass, so inherited helpers land on the blocked overrides) yields the set of methods that can change "
                "structure through self.  Every such method must be a timestamped owner; every name of the required table "
-               "must resolve to an always-raising definition (the decorator body is analysed, not trusted); explicit "
+               "must resolve to an always-raising definition (the decorator is interpreted, not trusted: not_implemented() is "
+               "evaluated, applied to every blocked stub and the result called with positional and with keyword arguments - "
+               "NetworkXNotImplemented must come out and the stub must never run); explicit "
                "base-class calls must target the direct base and re-create both temporal indexes; freeze must shadow every "
                "mutator that is not blocked for all graphs.  Positive control: stock networkx.Graph must show its ten mutators.")
 
